@@ -5,8 +5,11 @@ warnings.filterwarnings('ignore')
 sys.path.insert(0, os.path.dirname(os.path.dirname(os.path.abspath(__file__))))
 import importlib
 mod = importlib.import_module('checks.' + sys.argv[1].lower())
-seed = int(sys.argv[2]); tier = sys.argv[3] if len(sys.argv) > 3 else 'quick'
-sc = mod.generate(seed, tier)
+if sys.argv[2].endswith('.json'):
+    d = json.load(open(sys.argv[2])); sc = d.get('scenario', d)
+else:
+    seed = int(sys.argv[2]); tier = sys.argv[3] if len(sys.argv) > 3 and not sys.argv[3].startswith('-') else 'quick'
+    sc = mod.generate(seed, tier)
 sc['keep_events'] = True
 if '--debug' in sys.argv: sc['debug_log'] = True
 print(json.dumps(sc.get('meta'), default=str))
